@@ -188,6 +188,8 @@ def run_job(job, rec):
         # ---- dtype of the hyper-parameter vector: an integer array / a list of ints is a legitimate point
         if c % 3 == 0 and not cp_positions(p["spec"], n, d, x) and not R.has_hn(p["spec"]):
             ti = np.round(theta).astype(int)
+            if p["mean"] in ("UserDecay", "UserBump"):
+                ti[1] = max(int(ti[1]), 1)        # (the user-written means need a positive rate / width)
             tf = ti.astype(float)
             if np.linalg.cond(R.data_cov(p["spec"], x, tf[tm.size:]) + S) < 1e9:
                 rec.count("integer_theta_cases")
